@@ -51,6 +51,15 @@ pub struct Case {
     /// 3 the keyed form in another order (the three documented forms)
     #[serde(default)]
     pub red_form: u8,
+    /// bit i set: when the option of parameter i (0 area, 1 k_exp, 2 location, 3 RED1) is given and valid, the file
+    /// also repeats that metadata key twice more with other valid values (files stitched together from several
+    /// sources do this); the option wins whatever the program makes of repeated keys
+    #[serde(default)]
+    pub dup: u8,
+    /// after a successful run, run the program again on the components (and factors) it emitted, without
+    /// options: what it then echoes is what the emitted metadata *record*
+    #[serde(default)]
+    pub rerun: bool,
 }
 
 const BUILDINGS: [&str; 3] = [
@@ -76,7 +85,9 @@ fn num_v(valid: Vec<&'static str>, invalid: Vec<&'static str>) -> BoxedStrategy<
 fn red_v() -> BoxedStrategy<Red> {
     prop_oneof![
         55 => Just(Red::Absent),
-        38 => {
+        // exactly the built-in default (0, 1.3, 0.3): given by the user it must still beat a factors file's own line
+        10 => Just(Red::Valid([0, 1300, 300])),
+        28 => {
             // each component is often exactly 0 or 1 (a factor "not given" / the forced (1, 0, 0) shape)
             let comp = || prop_oneof![3 => Just(0u32), 1 => Just(1000u32), 6 => 0u32..=3000];
             (comp(), comp(), comp()).prop_map(|(a, b, c)| Red::Valid([a, b, c]))
@@ -149,6 +160,18 @@ pub fn components_text(c: &Case) -> String {
     }
     if let Some(t) = red_meta_text(&c.red2_meta, c.red_form >> 2) {
         s.push_str(&format!("#META CTE_RED2: {}\n", t));
+    }
+    if c.dup & 1 != 0 && matches!(c.area_opt, V::Valid(_)) {
+        s.push_str(&format!("#META {}: 77.70\n#META {}: 880.25\n", ka, ka));
+    }
+    if c.dup & 2 != 0 && matches!(c.k_opt, V::Valid(_)) {
+        s.push_str(&format!("#META {}: 0.4\n#META {}: 0.9\n", kk, kk));
+    }
+    if c.dup & 4 != 0 && matches!(c.loc_opt, V::Valid(_)) {
+        s.push_str(&format!("#META {}: CANARIAS\n#META {}: BALEARES\n", kl, kl));
+    }
+    if c.dup & 8 != 0 && matches!(c.red1_opt, Red::Valid(_)) {
+        s.push_str("#META CTE_RED1: 0.111, 0.222, 0.333\n#META CTE_RED1: 0.900, 0.800, 0.700\n");
     }
     s.push_str(BUILDINGS[c.bidx % BUILDINGS.len()]);
     s
@@ -353,11 +376,12 @@ impl Prop for C19 {
                 loc_v(vec!["MADRID", "peninsula", ""]),
             ),
             (red_v(), red_v(), red_v(), red_v()),
-            (proptest::option::weighted(0.25, 0usize..2), 0usize..3, any::<bool>(), prop::bool::weighted(0.2), prop::bool::weighted(0.15), prop_oneof![3 => Just(0u8), 2 => 0u8..16]),
+            (proptest::option::weighted(0.3, 0usize..2), 0usize..3, any::<bool>(), prop::bool::weighted(0.2), prop::bool::weighted(0.15), prop_oneof![3 => Just(0u8), 2 => 0u8..16]),
+            (prop_oneof![3 => Just(0u8), 1 => 0u8..16], prop::bool::weighted(0.35)),
         )
-            .prop_map(|((area_opt, area_meta, k_opt, k_meta, loc_opt, loc_meta), (red1_opt, red1_meta, red2_opt, red2_meta), (ffile, bidx, lm, no_strip, legacy_meta_keys, red_form))| {
+            .prop_map(|((area_opt, area_meta, k_opt, k_meta, loc_opt, loc_meta), (red1_opt, red1_meta, red2_opt, red2_meta), (ffile, bidx, lm, no_strip, legacy_meta_keys, red_form), (dup, rerun))| {
                 // an empty location metadata value cannot be written as `#META key:` + nothing on a legacy key: keep as is
-                Case { area_opt, area_meta, k_opt, k_meta, loc_opt, loc_meta, red1_opt, red1_meta, red2_opt, red2_meta, ffile, bidx, lm, no_strip, legacy_meta_keys, red_form }
+                Case { area_opt, area_meta, k_opt, k_meta, loc_opt, loc_meta, red1_opt, red1_meta, red2_opt, red2_meta, ffile, bidx, lm, no_strip, legacy_meta_keys, red_form, dup, rerun }
             })
             .boxed()
     }
@@ -499,6 +523,57 @@ fn check_run(c: &Case, text: &str, run: &CliRun, ctx: &mut Ctx) -> CheckResult {
     }
     if let Some(false) = Some(run.exists("out.xml") && run.exists("out.txt") && run.exists("of.csv")) {
         fail!("files", "a requested output file was not written");
+    }
+    // ---- "recorded in the metadata of the emitted components": the program itself, run again on what it
+    // emitted and without any option, must use the same values (at the precision the metadata record:
+    // two decimals for the area - so not below 0.01 m2 -, one for k_exp, three for factors)
+    if c.rerun && (e.area.1 * 100.0).round() >= 1.0 {
+        ctx.label("rerun_on_emitted_files");
+        let mut files2 = vec![("comp.csv".to_string(), oc.clone().into_bytes())];
+        let mut args2: Vec<String> = vec!["-c".into(), "comp.csv".into()];
+        if c.ffile.is_some() {
+            let of = run.file("of.csv").ok_or_else(|| Failure::new("files", "of.csv was not written"))?;
+            files2.push(("fact.csv".to_string(), of.into_bytes()));
+            args2.push("-f".into());
+            args2.push("fact.csv".into());
+        }
+        if c.lm {
+            args2.push("--load_matching".into());
+        }
+        if c.no_strip {
+            args2.push("-F".into());
+        }
+        args2.push("--json".into());
+        args2.push("out.json".into());
+        let run2 = run_cli_checked(&args2, &files2).map_err(|x| Failure::new("harness", x))?;
+        let r = (|| -> CheckResult {
+            ensure!(!run2.timed_out && run2.signal.is_none() && !run2.stderr.contains("panicked at"), "rerun_crash", "second run on the emitted files: {}", run2.summary());
+            ensure!(run2.status == Some(0), "rerun_status", "cteepbd refuses the components it emitted itself: {}", run2.summary());
+            let line2 = |prefix: &str| run2.stdout.lines().find(|l| l.starts_with(prefix)).map(|l| l.to_string()).unwrap_or_default();
+            let want_a = format!("Área de referencia (metadatos) [m2]: {:.2}", e.area.1);
+            ensure!(line2("Área de referencia (") == want_a, "recorded_area", "run on the emitted components prints `{}`; the first run used `{}`", line2("Área de referencia ("), want_a);
+            let want_k = format!("Factor de exportación (metadatos) [-]: {:.1}", e.k.1);
+            ensure!(line2("Factor de exportación (") == want_k, "recorded_kexp", "run on the emitted components prints `{}`; the first run used `{}`", line2("Factor de exportación ("), want_k);
+            if c.ffile.is_none() {
+                let want_f = format!("Factores de paso (metadatos): {}", e.fsrc.1);
+                ensure!(line2("Factores de paso (") == want_f, "recorded_location", "run on the emitted components prints `{}`; the first run used location `{}`", line2("Factores de paso ("), e.fsrc.1);
+            }
+            let js2 = run2.file("out.json").ok_or_else(|| Failure::new("json", "out.json of the second run was not written"))?;
+            let jv2: Value = serde_json::from_str(&js2).map_err(|x| Failure::new("json", format!("out.json of the second run does not parse: {}", x)))?;
+            for (car, eff) in [("RED1", eff_red1), ("RED2", eff_red2), ("ELECTRICIDAD", eff_el)] {
+                let got = jv2.get("wfactors").and_then(|w| w.get("wdata")).and_then(|w| w.as_array()).and_then(|a| {
+                    a.iter().find(|x| x.get("carrier").and_then(|c| c.as_str()) == Some(car) && x.get("source").and_then(|c| c.as_str()) == Some("RED") && x.get("dest").and_then(|c| c.as_str()) == Some("SUMINISTRO"))
+                });
+                let got = got.ok_or_else(|| Failure::new("recorded_factors", format!("no {} grid factor in the second run", car)))?;
+                for (j, key) in ["ren", "nren", "co2"].iter().enumerate() {
+                    let v = got.get(*key).and_then(|v| v.as_f64()).unwrap_or(f64::NAN);
+                    ensure!((v - eff[j] as f64).abs() <= 0.00051, "recorded_factors", "run on the emitted files uses {} {} = {}; the first run used {:?}", car, key, v, eff);
+                }
+            }
+            Ok(())
+        })();
+        run2.cleanup();
+        r?;
     }
     Ok(())
 }
